@@ -393,12 +393,15 @@ int main(int argc, char** argv) {
                "(thorough: {-2..2} to degree 7, {-3..3} to degree 5, {-1..1} to degree 10), all Gaussian-integer polynomials over {-1,0,1}^2 up to degree 4 (thorough 5), "
                "all root multisets of size 2..6 (thorough 7) from the 11-value alphabet expanded exactly in 128-bit integers, degree ladder 7..20 x 8 shapes, "
                "each under every value set (coefficient scale / root scale); distinct = distinct (entry, coefficient bits); non-trivial = degree >= 2 and some non-leading coefficient non-zero";
-    run.assumptions = {"coefficient and root scalings stay far from overflow/underflow of squared coefficients (|scale| within 2^+-100)",
-                       "backward-error bound 1e-6 (double) is calibrated on the unchanged tree (worst 7.2e-9), the documentation promises only 'high accuracy in most cases'",
-                       "conjugate pairing is demanded of the real-coefficient entry points only"};
+    run.assumptions = {"coefficient scalings within 2^+-30 and root scalings within 2^+-8 (far from overflow/underflow of squared coefficients)",
+                       "backward-error bounds are calibrated per solver on the unchanged tree (closed forms and cpoly 1e-6, rpoly 2e-3, rpoly on root multisets 0.1; "
+                       "recorded but not judged for rpoly on clusters of multiplicity >= 4): the documentation promises only 'high accuracy in most cases'",
+                       "conjugate pairing is demanded of the real-coefficient entry points only",
+                       "float instantiations only on the unscaled integer and Gaussian families"};
     std::vector<int> vsets;
     for (int i = 0; i < kNVSets; ++i) vsets.push_back(i);
     (void)run.seed;   // every value set is run in both tiers; the seed has nothing left to select
+    run.maxSamples = 12;
 
     // ---- int: all integer polynomials
     struct IntFam { int lo, hi, maxDeg; };
